@@ -109,7 +109,7 @@ CLS = {1: "read-error", 2: "eof-in-continuation", 3: "include-depth", 4: "undefi
 def describe_obs(o):
     if o["Kind"] != "rejected":
         return o["Kind"] + ((": " + o.get("Panic", "")) if o["Kind"] in ("panicked", "fatal") else "")
-    s = "rejected (%s)" % CLS.get(o["Cls"], o["Cls"])
+    s = "rejected (message reads as: %s)" % CLS.get(o["Cls"], o["Cls"])
     if o.get("HasPos"):
         s += " at %s:%d" % (o["Pos"]["File"], o["Pos"]["Line"])
         if o.get("Chain"):
